@@ -50,7 +50,7 @@ LEVEL_TEXT = ('Every printed path of every bounded configuration is parsed '
               'sequential reference; nothing is sampled.')
 LEVEL_NOTE = ('Trusted: the sequential reference (direct Python calls on '
               'vfx.flagmod), mc.canon. Bounds: shapes N<=3, sequences <=4 '
-              '; the thorough tier enumerates path shapes up to N=3.')
+              '; the thorough tier adds path shapes with N=3 over a reduced menu.')
 
 KEYS = ['a', 'a b', 'k]', '[', '.', 'é', '0', '-1', '', 0, 1, 10]
 
@@ -128,10 +128,18 @@ def path_cases(b):
   for s in shapes.all_shapes(
       [_KK[m] for m in ['cfg', 'par', 'pos', 'pos2', 'list2', 'tuple1',
                          'dict0']],
-      b['n'], 1, root_kinds=['cfg', 'pos', 'pos2', 'par']):
+      2, 1, root_kinds=['cfg', 'pos', 'pos2', 'par']):
     if s not in seen:
       seen.add(s)
       yield s
+  if b['n'] >= 3:
+    # three nodes over a reduced menu
+    for s in shapes.all_shapes(
+        [_KK[m] for m in ['cfg', 'pos2', 'list2', 'dict0']], 3, 1,
+        root_kinds=['cfg', 'pos2']):
+      if s not in seen:
+        seen.add(s)
+        yield s
 
 
 def contains_buildable(v):
